@@ -337,7 +337,9 @@ func workerSearch(t *testing.T, def *PropDef) {
 			break
 		}
 		tape := tapeFor(seed, def.ID, run, 1)
-		ro := runPlan(t, def, plan, tape, tier, false)
+		// the runs that are re-executed for the determinism check keep their event logs, so that a
+		// divergence can be shown even when it does not happen again
+		ro := runPlan(t, def, plan, tape, tier, out.DetChecked < detN)
 		out.Runs++
 		out.Stops[ro.Res.Stop]++
 		out.StepsTotal += int64(ro.Res.Steps)
@@ -378,9 +380,30 @@ func workerSearch(t *testing.T, def *PropDef) {
 		if out.DetChecked < detN {
 			out.DetChecked++
 			p2, _ := decodePlan(def, pj)
-			ro2 := runPlan(t, def, p2, simrt.NewReplayTape(append([]uint32(nil), ro.Tape...)), tier, false)
+			ro2 := runPlan(t, def, p2, simrt.NewReplayTape(append([]uint32(nil), ro.Tape...)), tier, true)
 			if ro2.Res.EventHash != ro.Res.EventHash {
 				msg := fmt.Sprintf("run %d: event log differs between two executions of the same tape (%s vs %s)", run, ro.Res.EventHash[:12], ro2.Res.EventHash[:12])
+				for i := 0; i < len(ro.Res.Events) || i < len(ro2.Res.Events); i++ {
+					ea, eb := "<end of log>", "<end of log>"
+					if i < len(ro.Res.Events) {
+						ea = ro.Res.Events[i]
+					}
+					if i < len(ro2.Res.Events) {
+						eb = ro2.Res.Events[i]
+					}
+					if ea != eb {
+						lo := i - 12
+						if lo < 0 {
+							lo = 0
+						}
+						hi := i
+						if hi > len(ro.Res.Events) {
+							hi = len(ro.Res.Events)
+						}
+						msg += fmt.Sprintf("\n first execution vs its replay, first divergence at event %d:\n A: %s\n B: %s\n context:\n  %s", i, ea, eb, strings.Join(ro.Res.Events[lo:hi], "\n  "))
+						break
+					}
+				}
 				// find the first divergence with full logs
 				for try := 0; try < 6; try++ {
 					pa, _ := decodePlan(def, pj)
